@@ -304,6 +304,10 @@ def val_key(v: Val, ctx: Optional[Ctx] = None):
         return ("dict",) + tuple((k, val_key(x, ctx)) for k, x in sorted(v.items.items()))
     if isinstance(v, ModV):
         return ("mod", v.dotted or v.module.name)
+    if isinstance(v, FrameV):
+        return ("frame", v.source, v.name)
+    if isinstance(v, JsonV):
+        return ("json", v.name)
     raise Unmodelled("no key for value %r" % (v,))
 
 
